@@ -686,4 +686,169 @@ theorem iterator_remove_tie (L : Lay) (hL : L.WF) (mem : Mem) (h : Heap) (hR : R
     simp only [e1, e2, e3, and_false, if_false]
     exact hI.li
 
+/-! ### the walks: `list_contains` and `list_remove` for lists of any length
+
+`tools/c2lean2.py` translates the `for` loop of `list_contains` into the recursive definition `list_contains.loop1` (one unfolding =
+condition, body, increment; a `fuel` argument).  The unfolding lemmas below are by computation; the tie is by induction on the fuel,
+using `iterator_next_tie` for the step — so it holds for every list length, with no unrolling bound. -/
+
+theorem loop1_exit (node iter : BitVec 64) (fuel : Nat) (d : Bool) (r : BitVec 8) (mem : Mem) :
+    list_contains.loop1 node iter (fuel + 1) d r mem 0#64 = ⟨false, r, mem, 0#64, false⟩ := by
+  simp [list_contains.loop1]
+
+theorem loop1_found (node iter : BitVec 64) (fuel : Nat) (d : Bool) (r : BitVec 8) (mem : Mem) (hn : node ≠ 0#64) :
+    list_contains.loop1 node iter (fuel + 1) d r mem node = ⟨true, 1#8, mem, node, false⟩ := by
+  simp [list_contains.loop1, hn]
+
+theorem loop1_next (node iter : BitVec 64) (fuel : Nat) (d : Bool) (r : BitVec 8) (mem : Mem) (curr : BitVec 64)
+    (h0 : curr ≠ 0#64) (hn : curr ≠ node) :
+    list_contains.loop1 node iter (fuel + 1) d r mem curr =
+      list_contains.loop1 node iter fuel false r (list_iterator_next iter mem).mem (list_iterator_next iter mem).ret := by
+  simp [list_contains.loop1, list_iterator_next, h0, hn]
+
+/-- the loop of `list_contains`, any number of iterations: whenever the model's loop finishes within the fuel, so does the generated
+    one, with the model's answer, the model's iterator left in the iterator object, and the heap untouched -/
+theorem contains_loop_tie (L : Lay) (hL : L.WF) (h : Heap) (hC : Closed L h) (ia : BitVec 64) (hF : Foreign L ia)
+    (nd : Node) (hnd : L.okN nd) (r0 : BitVec 8) :
+    ∀ (fuel : Nat) (mem : Mem) (it : Iter) (cur : Option Node) (d : Bool), Rep L mem h → IterAt L mem ia it → okLink L it.prevnext →
+      load h it.prevnext = cur → ∀ it' b, containsLoop h nd fuel it cur = .ok (it', b) →
+      (list_contains.loop1 (L.A (.next nd)) ia fuel d r0 mem (encN L cur)).exh = false ∧
+      (list_contains.loop1 (L.A (.next nd)) ia fuel d r0 mem (encN L cur)).done = b ∧
+      (list_contains.loop1 (L.A (.next nd)) ia fuel d r0 mem (encN L cur)).ret = (if b then 1#8 else r0) ∧
+      Rep L (list_contains.loop1 (L.A (.next nd)) ia fuel d r0 mem (encN L cur)).mem h ∧
+      IterAt L (list_contains.loop1 (L.A (.next nd)) ia fuel d r0 mem (encN L cur)).mem ia it' ∧
+      okLink L it'.prevnext ∧ (b = true → load h it'.prevnext = some nd) ∧ it'.list = it.list := by
+  intro fuel
+  induction fuel with
+  | zero => intro mem it cur d _ _ _ _ it' b e; simp [containsLoop] at e
+  | succ fuel ih =>
+    intro mem it cur d hR hI hk hld it' b e
+    cases cur with
+    | none =>
+      simp only [containsLoop, Except.ok.injEq, Prod.mk.injEq] at e
+      obtain ⟨e1, e2⟩ := e
+      subst e1 e2
+      simp only [encN, loop1_exit]
+      refine ⟨?_, ?_, ?_, hR, hI, hk, ?_, trivial⟩ <;> simp
+    | some c =>
+      have hc : L.okN c := load_ok L h hC _ hk c hld
+      simp only [containsLoop] at e
+      by_cases hcn : c = nd
+      · subst hcn
+        simp only [if_true, Except.ok.injEq, Prod.mk.injEq] at e
+        obtain ⟨e1, e2⟩ := e
+        subst e1 e2
+        simp only [encN, loop1_found _ _ _ _ _ _ (A_ne0 L hL (.next c) hc)]
+        refine ⟨?_, ?_, ?_, hR, hI, hk, fun _ => hld, trivial⟩ <;> simp
+      · rw [if_neg hcn] at e
+        have hne : L.A (.next c) ≠ L.A (.next nd) := by
+          rw [Ne, A_inj L hL _ _ (show L.ok (.next c) from hc) (show L.ok (.next nd) from hnd)]
+          simpa using hcn
+        obtain ⟨_, _, t3, t4, t5⟩ := iterator_next_tie L hL mem h hR hC ia hF it hI hk
+        have hin : iteratorNext h it = ({ it with prevnext := .nextOf c }, h.next c) := by unfold iteratorNext; rw [hld]
+        simp only [encN]
+        rw [loop1_next _ _ _ _ _ _ _ (A_ne0 L hL (.next c) hc) hne, t3]
+        rw [hin] at t5 e
+        rw [hin]
+        exact ih _ _ _ false t4 t5 hc rfl it' b e
+
+/-- `list_contains(list, node, iter)` with a caller's iterator object: the call is `list_iterate` followed by the loop -/
+theorem contains_unfold (fuel : Nat) (list node iter my : BitVec 64) (mem : Mem) (hi : iter ≠ 0#64) :
+    list_contains fuel list node iter my mem =
+      (let r := list_iterate list iter mem
+       let s := list_contains.loop1 node iter fuel false 0#8 r.mem r.ret
+       { ret := if s.done then s.ret else 0#8, mem := s.mem, ub := false, exh := (!s.done && s.exh) }) := by
+  have hi' : ¬ (0#64 = iter) := fun e => hi e.symm
+  simp [list_contains, list_iterate, hi']
+  all_goals first | rfl | (split <;> rfl)
+
+/-- **tie T, `list_contains`** (caller's iterator; any list length) -/
+theorem contains_tie (L : Lay) (hL : L.WF) (mem : Mem) (h : Heap) (hR : Rep L mem h) (hC : Closed L h) (l : Lid) (hl : L.okL l)
+    (nd : Node) (hnd : L.okN nd) (ia my : BitVec 64) (hF : Foreign L ia) (hi : ia ≠ 0#64)
+    (fuel : Nat) (it' : Iter) (b : Bool) (hok : contains fuel h l nd = .ok (it', b)) :
+    (list_contains fuel (L.A (.head l)) (L.A (.next nd)) ia my mem).ub = false ∧
+    (list_contains fuel (L.A (.head l)) (L.A (.next nd)) ia my mem).exh = false ∧
+    (list_contains fuel (L.A (.head l)) (L.A (.next nd)) ia my mem).ret = (if b then 1#8 else 0#8) ∧
+    Rep L (list_contains fuel (L.A (.head l)) (L.A (.next nd)) ia my mem).mem h ∧
+    IterAt L (list_contains fuel (L.A (.head l)) (L.A (.next nd)) ia my mem).mem ia it' ∧
+    okLink L it'.prevnext ∧ (b = true → load h it'.prevnext = some nd) ∧ it'.list = l := by
+  obtain ⟨_, _, i3, i4, i5⟩ := iterate_tie L mem h hR l hl ia hF
+  unfold contains at hok
+  have key := contains_loop_tie L hL h hC ia hF nd hnd 0#8 fuel _ (iterate h l).1 (iterate h l).2 false i4 i5
+    (show L.okL l from hl) rfl it' b hok
+  rw [contains_unfold fuel _ _ ia my mem hi]
+  simp only
+  rw [i3]
+  obtain ⟨k1, k2, k3, k4, k5, k6, k7, k8⟩ := key
+  refine ⟨by simp, by rw [k1]; simp, ?_, k4, k5, k6, k7, k8⟩
+  rw [k2, k3]
+  cases b <;> rfl
+
+/-- `list_remove(list, node)`: `list_contains` with the local iterator (the translator reuses the loop definition), then
+    `list_iterator_remove` when found -/
+theorem remove_unfold (fuel : Nat) (list node ia my : BitVec 64) (mem : Mem) (hi : ia ≠ 0#64) :
+    (list_remove fuel list node ia my mem).ub = false ∧
+    (list_remove fuel list node ia my mem).exh = (list_contains fuel list node ia my mem).exh ∧
+    (list_remove fuel list node ia my mem).ret = (if (list_contains fuel list node ia my mem).ret ≠ 0#8 then 1#8 else 0#8) ∧
+    (list_remove fuel list node ia my mem).mem =
+      (if (list_contains fuel list node ia my mem).ret ≠ 0#8 then (list_iterator_remove ia (list_contains fuel list node ia my mem).mem).mem
+       else (list_contains fuel list node ia my mem).mem) := by
+  have hi' : ¬ (0#64 = ia) := fun e => hi e.symm
+  unfold list_remove list_contains list_iterator_remove
+  simp only [hi', if_false, decide_false, Bool.false_eq_true]
+  refine ⟨trivial, trivial, ?_, ?_⟩
+  · split <;> simp_all
+  · split <;> simp_all
+
+/-- **tie T, `list_remove`** (any list length; the node is not its own successor) -/
+theorem remove_tie (L : Lay) (hL : L.WF) (mem : Mem) (h : Heap) (hR : Rep L mem h) (hC : Closed L h) (l : Lid) (hl : L.okL l)
+    (nd : Node) (hnd : L.okN nd) (hns : h.next nd ≠ some nd) (ia my : BitVec 64) (hF : Foreign L ia) (hi : ia ≠ 0#64)
+    (fuel : Nat) (h' : Heap) (b : Bool) (hok : remove fuel h l nd = .ok (h', b)) :
+    (list_remove fuel (L.A (.head l)) (L.A (.next nd)) ia my mem).ub = false ∧
+    (list_remove fuel (L.A (.head l)) (L.A (.next nd)) ia my mem).exh = false ∧
+    (list_remove fuel (L.A (.head l)) (L.A (.next nd)) ia my mem).ret = (if b then 1#8 else 0#8) ∧
+    Rep L (list_remove fuel (L.A (.head l)) (L.A (.next nd)) ia my mem).mem h' ∧ Closed L h' := by
+  obtain ⟨u1, u2, u3, u4⟩ := remove_unfold fuel (L.A (.head l)) (L.A (.next nd)) ia my mem hi
+  unfold remove at hok
+  cases hc : contains fuel h l nd with
+  | error e => rw [hc] at hok; cases hok
+  | ok r =>
+    obtain ⟨it', fb⟩ := r
+    rw [hc] at hok
+    obtain ⟨c1, c2, c3, c4, c5, c6, c7, c8⟩ := contains_tie L hL mem h hR hC l hl nd hnd ia my hF hi fuel it' fb hc
+    cases fb with
+    | false =>
+      simp only [Except.ok.injEq, Prod.mk.injEq] at hok
+      obtain ⟨e1, e2⟩ := hok
+      subst e1 e2
+      have hz : (list_contains fuel (L.A (.head l)) (L.A (.next nd)) ia my mem).ret = 0#8 := by rw [c3]; rfl
+      refine ⟨u1, by rw [u2, c2], ?_, ?_, hC⟩
+      · rw [u3, hz]; rfl
+      · rw [u4, hz]; simpa using c4
+    | true =>
+      simp only at hok
+      cases hr : iteratorRemove h it' with
+      | error e => rw [hr] at hok; cases hok
+      | ok r =>
+        rw [hr] at hok
+        simp only [Except.ok.injEq, Prod.mk.injEq] at hok
+        obtain ⟨e1, e2⟩ := hok
+        subst e1 e2
+        have hld := c7 rfl
+        have hself : cellOf it'.prevnext ≠ .next nd := by
+          intro e
+          cases hk : it'.prevnext with
+          | headOf l' => rw [hk] at e; cases e
+          | nextOf m =>
+            rw [hk] at e hld
+            simp only [cellOf, Cell.next.injEq] at e
+            subst e
+            exact hns hld
+        have hli : L.okL it'.list := by rw [c8]; exact hl
+        obtain ⟨_, _, _, r4, r5, _⟩ := iterator_remove_tie L hL _ h c4 hC ia hF it' c5 c6 hli nd hld hself r hr
+        have hnz : (list_contains fuel (L.A (.head l)) (L.A (.next nd)) ia my mem).ret ≠ 0#8 := by rw [c3]; decide
+        refine ⟨u1, by rw [u2, c2], ?_, ?_, r5⟩
+        · rw [u3, if_pos hnz]; rfl
+        · rw [u4, if_pos hnz]; exact r4
+
 end Librfn.C09.Tie
